@@ -214,6 +214,54 @@ def run(ctx):
         exp = None if m is None else (norm(join(cdir, m[1])) if m[0] == "spec" else norm(join(sdir, m[1])))
         if ans != exp:
             res.tie_break("assets.lookup", case, ans, exp)
+    # whole trees on a MemoryFS against the tree-level model (assetOf in Model/Tree.lean derives the containing directory and the
+    # file name from the property value itself: join, split, normpath; Props/C20Tree.lean)
+    import treegen
+    treqs, tmetas = [], []
+    outside_seen = False
+    for i in range(ctx.scale(60, 700)):
+        root, pk = treegen.world(rng)
+        songs = [k for k, v in pk.items() if isinstance(v, dict)]
+        if not songs: continue
+        m = treegen.build(root); T = treegen.node(root)
+        sname = rng.choice(songs); sdir = rng.choice(["/Songs/MyPack/" + sname, "Songs/MyPack/" + sname + "/", "/Songs/MyPack/./" + sname])
+        tree = pk[sname]; files = [n for n, v in tree.items() if not isinstance(v, dict)]
+        subs = [(n, v) for n, v in tree.items() if isinstance(v, dict)]
+        for K in KINDS:
+            opts = [None, "", "nope.png", "NoDir/x.png", "../../../../x", "/Other/X.PNG", "../" + sname + "/" + (files[0].swapcase() if files else "q"), ".", "..", "Sub/", "./",
+                    "../b.png", "../../MyPack.png"]
+            if files: opts += [rng.choice(files).swapcase(), rng.choice(files)]
+            for n, v in subs:
+                for f in v: opts += [n + "/" + f.swapcase(), n.swapcase() + "/" + f, n + "//" + f]
+            spec = rng.choice(opts)
+            sf = SSCSimfile.blank()
+            if spec is None: sf.pop(K, None)
+            else: sf[K] = spec
+            case = {"tree_case": {"song_dir": sdir, "song": tree if len(str(tree)) < 800 else "(large)", "kind": K, "property": spec}}
+            res.case(case, nontrivial=bool(spec)); res.traces += 1; res.count("tree_asset_cases")
+            try:
+                got = getattr(Assets(sdir, simfile=sf, filesystem=m), KINDS[K])
+            except Exception as e:
+                got = treegen.fs_err(e) or {"err": core.exc_name(e)}
+            if isinstance(got, str):
+                if not m.exists(got):
+                    res.violation(case, "the answer is a path that does not exist", impl=got); continue
+                base = fs.path.normpath(sdir)
+                if not (got == base or got.startswith(base.rstrip("/") + "/")) or got == base:
+                    # answered with something that does not lie under the simfile directory
+                    if spec and (spec.startswith("/") or ".." in spec.split("/") or spec in (".", "./")):
+                        outside_seen = True; res.count("named_file_outside_the_directory")      # listed finding C20-named-outside-directory
+                    else:
+                        res.violation(case, "the answer does not lie under the simfile directory", impl=got); continue
+            treqs.append({"op": "tree.asset", "tree": T, "dir": sdir, "kind": K, "specified": spec}); tmetas.append((case, got))
+    for (case, got), mm in zip(tmetas, ctx.lean.eval_sharded(treqs)):
+        res.traces += 1
+        exp = mm[1] if isinstance(mm, list) else mm
+        if got != exp:
+            res.tie_break("tree.asset", case, got, mm)
+    for f in ctx.findings:
+        if f["id"] == "C20-named-outside-directory":
+            res.findings_seen.append((f["id"], outside_seen, "%s: %s [%s]" % (f["id"], f["what"], f["input"])))
     from adapters import strlib
     strlib.validate(ctx, res, routines=('lower', 'endswith', 'rpartition'))
     res.assumptions = ["Python re is trusted for the three preset forms (lit, ^lit, lit$); names contain no line breaks",
